@@ -117,8 +117,8 @@ def parseWeights : List String → Option (List Dec)
 
 def weightSum (ws : List Dec) : Dec := ⟨(ws.map Dec.raw).sum⟩
 
-/-- `weight.MulInt(amountExact).Quo(weightSum).TruncateInt()` -/
-def share (w W : Dec) (a : Int) : Int := Dec.truncateInt (Dec.quo (Dec.mulInt w a) W)
+/-- `weight.MulInt(amountExact).Quo(weightSum).TruncateInt()` — the expression REGENERATED from route.go by svx -/
+def share (w W : Dec) (a : Int) : Int := Sunrise.Gen.KernelsSwap.split_share w a W
 
 /-- the shares of all weights but the last -/
 def shares (W : Dec) (a : Int) : List Dec → List Int
@@ -130,7 +130,7 @@ def shares (W : Dec) (a : Int) : List Dec → List Int
     Go panics: `Weights[:length-1]` on an empty slice; `Quo` by a zero weight sum (only evaluated for ≥ 2 weights). -/
 def split (ws : List Dec) (a : Int) : Res (List Int) :=
   if ws.length = 0 then .panic .indexRange
-  else if ws.length ≥ 2 ∧ (weightSum ws).raw = 0 then .panic .divZero
+  else if ws.length ≥ 2 ∧ Sunrise.Gen.KernelsSwap.split_share_ok Dec.zero a (weightSum ws) = false then .panic .divZero
   else
     let sh := shares (weightSum ws) a ws
     .ok (sh ++ [a - sh.sum])
